@@ -37,7 +37,9 @@ pub fn add_sub(a: i128, p: u8, b: i128, q: u8, sub: bool) -> (Expect, AddClass) 
     }
     if !in_i128(&r) {
         let lim = I512::from_u128(1u128 << 127);
-        let far = r.abs().mag > lim.mag.add(&U512::from_u64(2));
+        // 'near': within two steps of the coarser operand's unit
+        let step = U512::pow10((p.max(q) - p.min(q)) as u32).mul_u64(2);
+        let far = r.abs().mag > lim.mag.add(&step);
         return (
             Expect::Fail,
             if far { AddClass::Far } else { AddClass::OnePast },
